@@ -100,6 +100,13 @@ def build(v):
     if kind == 'foreign_child':
         inst.extension_elements.append(ExtensionElement('foreign', namespace=FOREIGN_NS, text='kept',
                                                         attributes={'a': 'b'}))
+    if kind == 'foreign_ownns_child':
+        inst.extension_elements.append(ExtensionElement('VerifUndeclared', namespace=t['ns'], text='kept', attributes={'a': 'b'}))
+    if kind == 'foreign_nested':
+        def fe(tag, text, kids=()):
+            return ExtensionElement(tag, namespace=FOREIGN_NS, text=text, children=list(kids))
+        inst.extension_elements.append(fe('outer', None, [fe('first', '1'), fe('second', None, [fe('x', 'x1'), fe('y', 'y1'), fe('x', 'x2')]),
+                                                        fe('third', '3'), fe('first', '4')]))
     if kind == 'foreign_attr':
         inst.extension_attributes['{%s}attr' % FOREIGN_NS] = 'kept'
     if kind in ('ownns_attr', 'ownns_attr_both'):
@@ -130,8 +137,10 @@ def describe(obj, depth=0):
             continue
         vals = val if isinstance(val, list) else [val]
         d['children'][member] = [describe(x, depth + 1) for x in vals]
+    def ext(e):
+        return [e.namespace, e.tag, e.text, sorted(e.attributes.items()), [ext(c) for c in e.children]]
     for e in obj.extension_elements:
-        d['ext'].append([e.namespace, e.tag, e.text, sorted(e.attributes.items())])
+        d['ext'].append(ext(e))
     return d
 
 
@@ -190,7 +199,7 @@ def main():
     if chk.tier != 'thorough':
         keep = []
         for c in cases:
-            if c['v']['kind'] in ('empty', 'allattrs', 'allchildren', 'foreign_child', 'foreign_attr', 'ownns_attr', 'ownns_attr_both', 'text_layout', 'optattrs_empty', 'allattrs_altlex', 'allattrs_special') or not c['roundTrips'] \
+            if c['v']['kind'] in ('empty', 'allattrs', 'allchildren', 'foreign_child', 'foreign_attr', 'foreign_ownns_child', 'foreign_nested', 'ownns_attr', 'ownns_attr_both', 'text_layout', 'optattrs_empty', 'allattrs_altlex', 'allattrs_special') or not c['roundTrips'] \
                     or chk.rng.random() < 0.35:
                 keep.append(c)
         cases = keep
